@@ -229,6 +229,7 @@ let () =
               | r0 :: _ -> if r0 <> "PANIC:out-of-names" then mismatch !opno "api" (opname ^ ": " ^ res)
               | [] -> ()
             end
+          | _ when (match rf with "TIMEOUT" :: _ -> true | _ -> false) -> bump "elr_exponential_cases_cut_by_watchdog"
           | _ when (match rf with "LARGE" :: _ -> true | _ -> false) ->
             bump "large_outputs_not_compared";
             if not c08 && field rf "eq" <> Some "t" then
